@@ -130,7 +130,9 @@ def run(ctx):
     total = 0
     for tp, (n, bad) in zip(traces, results):
         total += n
-        add_violations_from_bad(ctx, bad, tp)
+        # the byte-order reading of the iteration clause is one finding whatever call preceded the observation
+        add_violations_from_bad(ctx, bad, tp, sig_of=lambda line, event, tag: tag + "@any" if tag == "Inv.IterationAscendingByteOrder"
+                                else "%s@%s" % (tag, event))
     with open(traces[0]) as f:
         samples = [json.loads(next(f)) for _ in range(3)]
     for s in samples:
@@ -158,8 +160,10 @@ def run(ctx):
                        "sorted-insert trie) judged by MptTrace.tla against Canon(content).",
     }
     finish(ctx, "model_checking", coverage, [
-        "iteration order is the trie's pre-order, i.e. ascending order of the terminated nibble paths: a key that is a proper "
-        "prefix of another is yielded after it (this is upstream go-ethereum's documented order; with equal-length keys it is bytes order)",
+        "Inv.IterationOrder judges the trie's pre-order, i.e. ascending order of the terminated nibble paths: a key that is a proper "
+        "prefix of another is yielded after it (upstream go-ethereum's order, encoded in its own iterator tests; with no prefix keys it is "
+        "the order of the key bytes); the literal reading of the statement (ascending key bytes) is judged separately by "
+        "Inv.IterationAscendingByteOrder, which is a known finding on the pinned tree for prefix keys",
         "keccak-256 and RLP used for the reference digest are golang.org/x/crypto/sha3 and a 100-line encoder in "
         "harness/internal/trieutil, self-tested against the empty-trie root, the doe/dog/dogglesworth root and a single-leaf vector at start-up",
         "key universe: 16 byte keys (empty key, prefix pair, divergence after odd/even nibble counts, 32-byte keys sharing 63 / 1 nibbles; "
